@@ -23,8 +23,8 @@ var externals map[string]externalFn
 
 func init() {
 	externals = map[string]externalFn{
-		verifPkg + ".Bool":     func(fr *frame, a []value) value { return fr.m.newInput("bool", term.BoolSort) },
-		verifPkg + ".Byte":     func(fr *frame, a []value) value { return fr.m.newInput("u8", term.BVSort(8)) },
+		verifPkg + ".Bool": func(fr *frame, a []value) value { return fr.m.newInput("bool", term.BoolSort) },
+		verifPkg + ".Byte": func(fr *frame, a []value) value { return fr.m.newInput("u8", term.BVSort(8)) },
 		verifPkg + ".Digit": func(fr *frame, a []value) value {
 			return lowerTerm(fr.m.C.ZExt(8, fr.m.newInput("u4", term.BVSort(4)).(*term.Term)), types.Typ[types.Uint8])
 		},
@@ -77,11 +77,11 @@ func init() {
 		"math/bits.OnesCount32":     extOnesCount(32),
 		"math/bits.OnesCount64":     extOnesCount(64),
 
-		"strconv.Itoa": extItoa,
+		"strconv.Itoa":               extItoa,
 		"internal/stringslite.Clone": func(fr *frame, a []value) value { return a[0] },
 		"strings.Clone":              func(fr *frame, a []value) value { return a[0] },
-		"time.Now":     extZeroResult,
-		"sort.Slice":   extSortSlice,
+		"time.Now":                   extZeroResult,
+		"sort.Slice":                 extSortSlice,
 
 		"internal/bytealg.IndexByteString": func(fr *frame, a []value) value {
 			return strings.IndexByte(a[0].(string), a[1].(byte))
